@@ -310,3 +310,19 @@ M('C07', 'jacobian-mode-mismatch', P2MF, "                DistMode::ToPoint => p
 M('C07', 'result-initial-transform', P2MF, "        Ok(Align3::new(result.current_transform(), residuals))", "        Ok(Align3::new(*initial, residuals))", 'points_to_mesh:result')
 M('C07', 'result-ignores-failure-2d', P2CF, "    if report.termination.was_successful() {\n        let residuals", "    if report.termination.was_successful() || true {\n        let residuals", 'points_to_curve:result')
 M('C07', 'residual-unpaired-2d', P2CF, "        for (i, (p, c)) in self.moved.iter().zip(self.closest.iter()).enumerate() {\n            res[i] = c.scalar_projection(p);", "        for (i, (p, c)) in self.moved.iter().zip(self.closest.iter().rev()).enumerate() {\n            res[i] = c.scalar_projection(p);", 'PointsToCurve::residuals')
+
+# ---------------------------------------------------------------- C08
+R2F = 'src/geom2/align2/rc_params2.rs'
+A3F = 'src/geom3/align3.rs'
+J3F = 'src/geom3/align3/jacobian.rs'
+M('C08', 'rc3-set-no-compute', A3F, "    pub fn set(&mut self, x: &T3Storage) {\n        self.x = *x;\n        self.compute();", "    pub fn set(&mut self, x: &T3Storage) {\n        self.x = *x;", 'RcParams3:x-writer')
+M('C08', 'rc2-stale-inverse', R2F, "        self.transform = as_iso_about_origin(&self.rc, &t);\n        self.inverse = self.transform.inverse();", "        self.inverse = self.transform.inverse();\n        self.transform = as_iso_about_origin(&self.rc, &t);", 'RcParams2::compute:inverse')
+M('C08', 'rc3-current-rc-not-updated', A3F, "        self.inverse = self.transform.inverse();\n        self.current_rc = self.transform * self.rc;\n    }\n\n    pub fn transform", "        self.inverse = self.transform.inverse();\n    }\n\n    pub fn transform", 'RcParams3::compute:writes-all')
+M('C08', 'rc2-conjugation-swapped', R2F, "    let back = Iso2::translation(-rc.x, -rc.y);\n\n    fwd * t * back", "    let back = Iso2::translation(-rc.x, -rc.y);\n\n    back * t * fwd", 'as_iso_about_origin')
+M('C08', 'rc3-shift-order', A3F, "        self.transform = self.shift1 * p * self.shift0;", "        self.transform = self.shift0 * p * self.shift1;", 'RcParams3::compute:transform')
+M('C08', 'jac2-lever-from-fixed-rc', 'src/geom2/align2/jacobian.rs', "    let from_rc = p - params.current_rc();", "    let from_rc = p - params.rc();", 'point_surface_jacobian')
+M('C08', 'jac3-rows-swapped', J3F, "    result[3] = n.dot(&(params.rotations().rd.x * from_rc).coords);\n    result[4] = n.dot(&(params.rotations().rd.y * from_rc).coords);", "    result[3] = n.dot(&(params.rotations().rd.y * from_rc).coords);\n    result[4] = n.dot(&(params.rotations().rd.x * from_rc).coords);", 'point_plane_core:rows')
+M('C08', 'jac3-rev-not-negated', J3F, "    point_plane_core(-s, c, from_rc, params)", "    point_plane_core(s, c, from_rc, params)", 'point_plane_jacobian_rev')
+M('C08', 'jac3-plane-unsigned', J3F, "    let s = c.scalar_projection(p).signum();\n\n    // The point with relation to the current center of rotation\n    let from_rc = Point3::from(p - params.current_rc());", "    let s = 1.0;\n\n    // The point with relation to the current center of rotation\n    let from_rc = Point3::from(p - params.current_rc());", 'point_plane_jacobian')
+M('C08', 'handler-set-no-compute', 'src/geom3/align3/multi_param.rs', "        self.raw_params.copy_from(x);\n        self.compute();", "        self.raw_params.copy_from(x);", 'ParamHandler::set_param')
+M('C08', 'handler-wrong-slice', 'src/geom3/align3/multi_param.rs', "                let param = self.raw_params.fixed_rows::<6>(p_index * 6);", "                let param = self.raw_params.fixed_rows::<6>(i * 6);", 'ParamHandler::compute')
